@@ -30,12 +30,13 @@ TRUSTED_BASE = [
 
 # which hand-proved tie modules (translation of the code == hand-written model) concern which property
 TIE_MODULES = {
-    "C01": ["Tad", "Rdfs"], "C02": ["Tad"], "C03": ["Tad"], "C04": ["Tad"], "C05": ["Tad"], "C06": ["Tad", "Rdfs"],
-    "C07": ["Rdfs"], "C08": ["Gen", "Gen2"], "C11": ["Gen", "Gen2"], "C13": ["Tad", "Rdfs"], "C14": ["Tad"],
+    "C01": ["Tad", "Rdfs", "RdfsLoop"], "C02": ["Tad"], "C03": ["Tad"], "C04": ["Tad"], "C05": ["Tad"],
+    "C06": ["Tad", "Rdfs", "RdfsLoop"], "C07": ["Rdfs", "RdfsLoop"], "C08": ["Gen", "Gen2"], "C11": ["Gen", "Gen2"],
+    "C13": ["Tad", "Rdfs", "RdfsLoop"], "C14": ["Tad"],
     "C15": ["Gen2"], "C17": ["Gen2"],
 }
 TIE_SOURCES = {"Gen": ["roberta_generator.py"], "Gen2": ["roberta_generator.py", "stochastic_game_from_roborta_board.py"],
-               "Rdfs": ["reverse_dfs.py"], "Tad": ["tad.py"]}
+               "Rdfs": ["reverse_dfs.py"], "RdfsLoop": ["reverse_dfs.py"], "Tad": ["tad.py"]}
 
 
 def translator_tie(prop, env):
